@@ -345,17 +345,34 @@ def apply_rules(text, relpath):
                 k += 1
             text = text[:m.start()] + text[k + 1:]
             count('R9')
+    # R10: a type that derives PartialEq + Eq and is built only from primitive integers, bool and field-less enums gets
+    # Verus' `Structural` derive, which gives the *derived* `==` its structural meaning (otherwise `a == b` on such a
+    # type is opaque to the verifier).  Types holding Vec / String / generics are left alone.
+    prim = r'(?:u8|u16|u32|u64|usize|i8|i16|i32|i64|bool)'
+    fieldless = set(re.findall(r'#\[derive\([^\]]*\bPartialEq\b[^\]]*\)\]\s*(?:pub(?:\([a-z]+\))?\s+)?enum\s+(\w+)\s*\{[^(){}]*\}', text))
+    def add_structural(m):
+        derive, kind, name, body = m.group(1), m.group(2), m.group(3), m.group(4)
+        if 'PartialEq' not in derive or not re.search(r'\bEq\b', derive) or 'Structural' in derive:
+            return m.group(0)
+        if kind == 'enum':
+            ok = not re.search(r'[({]', body)
+        else:
+            tys = re.findall(r':\s*([^,\n]+)', body)
+            ok = bool(tys) and all(re.fullmatch(prim, t.strip()) or t.strip() in fieldless for t in tys)
+        if not ok:
+            return m.group(0)
+        count('R10')
+        return m.group(0).replace('#[derive(' + derive + ')]', '#[derive(' + derive + ', Structural)]', 1)
+    text = re.sub(r'#\[derive\(([^\]]*)\)\]\s*(?:pub(?:\([a-z]+\))?\s+)?(enum|struct)\s+(\w+)\s*\{([^{}]*)\}', add_structural, text)
     # R1
     text = sub('R1', r'\|_\|', '|_vf|', text)
     # R2
     text = sub('R2', r'\.borrow\(\)', '.vf_borrow()', text)
     text = sub('R2', r'\.to_be_bytes\(\)', '.vf_to_be_bytes()', text)
     text = sub('R2', r'\bu(16|32|64)::from_be_bytes\(', r'vf_u\1_from_be_bytes(', text)
-    text = sub('R2', r'(\.vf_borrow\(\)\s*)\.try_into\(\)', r'\1.vf_try_into()', text)
-    text = sub('R2', r'(\])\s*\.try_into\(\)', r'\1.vf_try_into()', text)
-    if relpath.endswith('slice_reader.rs'):
-        # the slice->array conversion inside the macro `read_buf_unchecked!`
-        text = sub('R2', r'\bresult\.try_into\(\)\.unwrap_unchecked\(\)', 'result.vf_try_into().unwrap_unchecked()', text)
+    # every `.try_into()` (slice -> array, and u16 -> num_enum type) goes through the wrapper trait `VfTryInto`, whose
+    # impls carry the contracts (slice: prelude; enums: D3 stand-ins)
+    text = sub('R2', r'\.try_into\(\)', '.vf_try_into()', text)
     # R3
     n0 = len(re.findall(r'\bassert!\s*\(', rs.blank(text)[0]))
     text = rewrite_asserts(text)
@@ -401,6 +418,15 @@ impl From<%(en)s> for u16 {
 impl vstd::std_specs::convert::FromSpecImpl<%(en)s> for u16 {
     open spec fn obeys_from_spec() -> bool { true }
     open spec fn from_spec(e: %(en)s) -> u16 { crate::vf_spec::spec_%(lc)s_code(e) }
+}
+impl crate::vf_prelude::VfTryInto<%(en)s> for u16 {
+    type VfErr = VfPrimErr%(en)s;
+    #[verifier::external_body]
+    fn vf_try_into(&self) -> (r: Result<%(en)s, VfPrimErr%(en)s>)
+        ensures
+            r is Ok <==> crate::vf_spec::spec_%(lc)s_of(*self) is Some,
+            r is Ok ==> Some(r->Ok_0) == crate::vf_spec::spec_%(lc)s_of(*self),
+    { unimplemented!() }
 }
 ''' % {'en': en, 'lc': re.sub(r'(?<!^)([A-Z])', r'_\1', en).lower()}
     return out
@@ -494,6 +520,23 @@ class Gen:
             else:
                 nm_end = f.kw + re.match(r'fn\s+[A-Za-z_][A-Za-z0-9_]*', b[f.kw:]).end()
                 edits.append((nm_end, nm_end, '<' + ', '.join(new_generics) + '>'))
+        # a loop without a spliced invariant (new code): nothing can be proved across it, so every failure in this
+        # function is undecided (witness-decided); `while`/`loop` additionally need the no-decreases escape or the
+        # whole run would stop with a VIR error
+        if f.has_body and not (c and c.external_body) and f.key not in self.skip_body:
+            lo0, hi0 = f.body_open + 1, f.body_close
+            all_loops = rs.find_loops(b, lo0, hi0)
+            bare = [(k + 1, kw) for k, (_, kw, _, _) in enumerate(all_loops) if not (c and (k + 1) in c.loops)]
+            if bare:
+                self.lose(f, 'loop(s) without invariant: %s' % ', '.join('#%d (%s)' % x for x in bare))
+                if any(kw != 'for' for _, kw in bare):
+                    ind = re.match(r'[ \t]*', text[f.line_start:]).group(0)
+                    edits.append((f.line_start, f.line_start, '%s#[verifier::exec_allows_no_decreases_clause]%s\n' % (ind, TAG)))
+        if f.has_body and getattr(self, 'new_fn_names', None) and f.name not in self.new_fn_names:
+            body_b = b[f.body_open:f.body_close]
+            called = [n for n in self.new_fn_names if re.search(r'\b%s\s*\(' % re.escape(n), body_b)]
+            if called:
+                self.lose(f, 'calls function(s) that are new in this tree and carry no contract: %s' % ', '.join(called))
         if c is None and not (self.canary and f.has_body):
             return edits
         retname = (c.ret if c and c.ret else 'res')
@@ -793,8 +836,38 @@ class Gen:
                            'dropped_by_rule': drop, 'dropped_comment_lines': dropped_comment}
 
     # -- whole image --------------------------------------------------------------------------
+    def prescan_new_functions(self):
+        """Functions that are not in the inventory of the tree the contracts were written for (vf/known_fns.txt):
+        new helpers carry no contract, so a caller's proof cannot see what they return."""
+        inv_path = os.path.join(HERE, 'known_fns.txt')
+        if not os.path.exists(inv_path):
+            return
+        known = set(open(inv_path).read().split('\n'))
+        found = []
+
+        def walk(path, modpath):
+            text = apply_rules(open(path).read(), path)
+            fns, _ = rs.scan_items(text, modpath)
+            found.extend(f.key for f in fns)
+            b2, _ = rs.blank(text)
+            me = os.path.splitext(os.path.basename(path))[0]
+            dirpath = os.path.dirname(path)
+            subdir = dirpath if me in ('lib', 'mod') else os.path.join(dirpath, me)
+            for m in re.finditer(r'^([ \t]*)(pub(?:\([a-z]+\))?\s+)?mod\s+([a-z_0-9]+);[ \t]*$', b2, flags=re.M):
+                name = m.group(3)
+                a = os.path.join(subdir, name + '.rs')
+                bb = os.path.join(subdir, name, 'mod.rs')
+                fp = a if os.path.exists(a) else bb
+                if os.path.exists(fp):
+                    walk(fp, (modpath + '::' if modpath else '') + name)
+        walk(os.path.join(self.src_root, 'lib.rs'), '')
+        self.new_fn_names = sorted({k.split('::')[-1] for k in found if k not in known})
+        RULES_APPLIED.clear()
+
     def generate(self, prelude_text, spec_text):
         self.labels = []
+        self.new_fn_names = []
+        self.prescan_new_functions()
         body = self.process_file(os.path.join(self.src_root, 'lib.rs'), '')
         unused = [k for k, c in self.contracts.items() if not c.used]
         if unused:
